@@ -374,6 +374,10 @@ func runWorkflowJob(job *Job, res *Result) {
 		e := spec.Edges[i]
 		spec.Edges = append(append([]Edge{}, spec.Edges[:i]...), spec.Edges[i+1:]...)
 		res.Scenario += fmt.Sprintf("/unconnected=%s.%s<-%s.%s", e.To, e.ToPort, e.From, e.FromPort)
+		if job.Args["omit_how"] == "disconnect" && !e.Param {
+			spec.UndoEdges = append(spec.UndoEdges, e)
+			res.Scenario += "/connected-then-disconnected"
+		}
 	}
 	if job.OmitFromStr != "" {
 		f := strings.SplitN(job.OmitFromStr, ".", 2)
